@@ -104,3 +104,25 @@ CLAIMS = {
 ENABLED = ["C%02d" % i for i in range(1, 21)]
 
 NOT_APPLICABLE = {}
+
+
+# ---- later refinements of the claim texts (proved parts added after the first wiring) ----------------------------
+CLAIMS["C06"]["text"] = ("Proved on every run: value_is_valid / set_value accept exactly the values of the option's type and store floats "
+                         "canonically; two lemmas over the spec functions: the value the precedence rule prescribes for an int / hex / float "
+                         "option (DEF_SV) is empty or well-formed for the type and lies inside the active range (a false canary lemma must stay "
+                         "unprovable); the header entry (hex with 0x) and the JSON value (typed number, null when empty, computed without "
+                         "raising for every well-formed value) equal their one-entry specs; the case split of str_value is exhaustive. That "
+                         "the numeric branches of the real str_value compute exactly DEF_SV is proved by the thorough command only. CMake "
+                         "and whole-run exception freedom are bounded (rtc.drv_eval).")
+CLAIMS["C07"]["text"] = ("Proved: the sdkconfig entry (config_string), the C header entry (_header_string), the JSON value "
+                         "(get_json_values.write_node) and the sdkconfig line of a deprecated alias (_deprecated_config_string: the replacement's "
+                         "value, inverted exactly for `!` aliases of bools, independent of other aliases) are each equal to one spec function of "
+                         "(written?, type, value), so these formats agree for all inputs. Bounded: CMake, auto.conf, the alias defines of the "
+                         "header, the rename-table construction and whole-file agreement, parsed back by independent readers.")
+CLAIMS["C07"]["note"] = "write_cmake's closure over an open file and the rename table (dict-heavy) are out of pyvc's reach: bounded. Known finding: inverted alias of a disabled bool is missing from the header."
+CLAIMS["C11"]["category"] = "other"
+CLAIMS["C11"]["technique"] = T_MIXED
+CLAIMS["C11"]["text"] = ("Proved: the line written for a deprecated alias carries the replacement's value, inverted exactly for `!` aliases of "
+                         "bools (what a later load of the deprecated block reads back). Bounded: loading through a deprecated name == loading "
+                         "through the new name (inversions, not-set lines, duplicates), never unknown, deprecated block ignored unless requested.")
+CLAIMS["C11"]["note"] = "_load_config's rename resolution and _parse_replacements are bounded only."
